@@ -8,8 +8,8 @@ BASE = "cd /repo && /venv/bin/python -m pytest -ra -q -p no:cacheprovider --time
 
 # what the seeded rounds 2-4 added to each check (DESIGN.md 11.2), appended to the claim text
 EXTRA = {
- "C13": "Kconfig file forms vary (comments incl. commented-out assignments, CRLF, no final newline); white-space-bounded, empty and blank names also go through the command line. Name pairs whose concatenations coincide (under '.', '', blank, '/', ':', '-', '_', ',' in either order) in one process.",
- "C08": "Every name is also placed after / before a valid entry of its space (4815 scenarios), commands next to another command of their class.",
+ "C13": "Kconfig file forms vary (comments incl. commented-out assignments, CRLF, no final newline); white-space-bounded, empty and blank names also go through the command line. Name pairs whose concatenations coincide (under '.', '', blank, '/', ':', '-', '_', ',' in either order) in one process. Every fourth envelope also lists another installed manifest among its components; one name under two namespaces.",
+ "C08": "Every name is also placed after / before a valid entry of its space (4815 scenarios), commands next to another command of their class. The parse side is judged too: the same content under 17 tag numbers x every head width (ParseTagJudge).",
  "C01": "Generated descriptions vary the order of envelope members; a description the tree under test refuses is skipped and counted, never a crash. Supplied wrong digests are written in all three notations of the language (hex, raw, file_direct); the wrapped manifest and the wrapped severed text are padded to hash / buffer block sizes (128 .. 8192) as well as to CBOR head boundaries.",
  "C02": "Wire_MC also enumerates 48 union-typed atoms (hex texts that are valid under BOTH alternatives of suit-parameter-content / suit-cose-key-id); the grammar stream shuffles the envelope members. Histories of inline dependency descriptions in one process (fresh objects and one kept object that is changed and created again) are judged compositionally.",
  "C03": "The grammar stream (0..4 authentication blocks, shuffled envelope members) and generated shapes with varied member order are round-tripped too; the names-the-content conjunct compares in a canonical order of envelope members. Hierarchies with ONE dependency name in sibling branches (different envelopes) go through all four format / hierarchy combinations.",
@@ -19,15 +19,15 @@ EXTRA = {
  "C07": "Three entry points (library, image boot, ncs/build.py storage --soc); every fourth scenario starts with the output files already present (stale-output history). The output directory's name varies over braces, per-cent signs, blanks, shell and pattern characters.",
  "C09": "Resolve.tla states how sign-script, kms-script, context, algorithm and action are resolved per node (own > inherited > NCS_SUIT_* > ZEPHYR_BASE); Resolve_MC checks the precedence invariants and its 15 552 (own settings x environment) scenarios are replayed with logging plug-in sign scripts (the call RecursiveSigner makes for a node carries every resolved setting). Every second pre-signed node carries its COSE_Sign1 tag in the two-byte form another encoder may write.",
  "C10": "The CLI stream includes from_envelope with 0..3 adjacent dependency envelopes, payloads with edge bytes at both ends and pre-existing output files. The library entry point is called repeatedly in one process over rewritten files and over one relative name in two directories; inputs are named through links. URIs with 2-, 3- and 4-byte UTF-8 characters whose byte lengths straddle the head widths (objects, from_payloads, merge).",
- "C11": "Payloads with edge bytes at both ends; every fourth run starts with the output files already present. Payload names that spell the integer label of another member (2, 3, 20, 23).",
+ "C11": "Payloads with edge bytes at both ends; every fourth run starts with the output files already present. Payload names that spell the integer label of another member (2, 3, 20, 23). One payload of every size 0..70 at erase blocks 32 and 64 (first-slot residues beyond the short padding headers).",
  "C12": "Every fifth run starts with the output file already present (a refusal must not pass for an output). The stale-output history also leaves valid files of an earlier invocation with the same content at another address; MPI areas at address 0. --size in hexadecimal with every letter as last digit, in both cases, on the real command line (generate and merge).",
  "C14": "Histories also run through cmd_encrypt.main and real CLI processes writing runs of identical firmware into ONE output directory. Also zero-length firmware and workers forked after the library was loaded.",
- "C15": "The key is drawn by the tool, so the key space is reached by volume (DER x200 / x4000 pairs per type, special tails counted in the evidence); convert scenarios cover rows that end at / around the end of every key length and the remaining layout options (array type, length type with cast, header and footer file). Output prefixes with dots; pre-existing key files longer than any key. One KeyConverter object used repeatedly (preview, write, write again).",
+ "C15": "The key is drawn by the tool, so the key space is reached by volume (DER x200 / x4000 pairs per type, special tails counted in the evidence); convert scenarios cover rows that end at / around the end of every key length and the remaining layout options (array type, length type with cast, header and footer file). Output prefixes with dots; pre-existing key files longer than any key. One KeyConverter object used repeatedly (preview, write, write again). A valid earlier pair stands at the prefix of every request that is refused at the public key.",
  "C16": "The CLI stream passes the partition address in decimal; every fourth scenario starts with both output files already present. The directory of the output files carries braces, per-cent signs, blanks, shell characters. Contents with long runs of 0xFF / 0x00 and all-0xFF files; output files named absolute / relative / ./relative.",
- "C17": "CutHead(node, major type, width, present bytes) puts heads with a cut-short length field in place of every node (inside bstr wrappers: well-formed outside, cut short inside) and as whole inputs; the parent process enforces the per-input watchdog (10 s, kill, fresh worker). Further replacement kinds (maps without key 0, simple values, undefined) and chains of 10..800 nested dependency envelopes. 25 stress strings at every text node of every base envelope; CBOR shared references (tags 28 / 29) of 4..400 levels at six positions (genuine defect F11, fixed).",
- "C18": "The alphabet has grown to 35 operations (Determinism_MC2: every remaining command, most with two different inputs of one kind; inline dependencies reading a file that changes, permuted entries, relative paths with the directory in the key; hierarchical YAML parse of two hierarchies). Operations on ONE kept signer object (skip on a signed envelope, sign, sign another) are in the extended alphabet.",
+ "C17": "CutHead(node, major type, width, present bytes) puts heads with a cut-short length field in place of every node (inside bstr wrappers: well-formed outside, cut short inside) and as whole inputs; the parent process enforces the per-input watchdog (10 s, kill, fresh worker). Further replacement kinds (maps without key 0, simple values, undefined) and chains of 10..800 nested dependency envelopes. 25 stress strings at every text node of every base envelope; CBOR shared references (tags 28 / 29) of 4..400 levels at six positions (genuine defect F11, fixed). Shared-reference inputs also with two- and eight-byte tag heads.",
+ "C18": "The alphabet has grown to 35 operations (Determinism_MC2: every remaining command, most with two different inputs of one kind; inline dependencies reading a file that changes, permuted entries, relative paths with the directory in the key; hierarchical YAML parse of two hierarchies). Operations on ONE kept signer object (skip on a signed envelope, sign, sign another) are in the extended alphabet. failretry: a description object that survives a failed create.",
  "C19": "Every second configuration is built in ONE shared artifacts folder with the children regenerated under the same names; a share is rendered through the ncs/build.py template command line (Kconfig + VERSION files). Punctuated custom MPI names (& < > ') and an artifacts folder whose path carries such characters.",
- "C20": "A share of the VERSION files goes through ncs/build.py template --version_file. The corners of the tuple space (all zero with / without tweak line, ...) are enumerated first; VERSION file forms vary.",
+ "C20": "A share of the VERSION files goes through ncs/build.py template --version_file. The corners of the tuple space (all zero with / without tweak line, ...) are enumerated first; VERSION file forms vary. VERSION files with exactly one of the two explicit overrides.",
 }
 
 # id -> dict(level, text, note, technique, design_ref, engine)
